@@ -335,10 +335,26 @@ pub fn probes(w: &World, rec: &mut Recorder, ix: &Ix, cfg: &MatrixCfg, rng_salt:
                 // an account of a different type as well
                 cands.push("user:mallory".into());
             }
-            // deterministic sample
-            while cands.len() > cfg.max_subst_per_slot {
-                let k = rng.gen_range(0..cands.len());
-                cands.swap_remove(k);
+            // deterministic sample: half of the budget goes to the candidates MOST SIMILAR to the right account (same mint,
+            // same owner, same pool ... - counted as equal fields of the projected records: the ones an instruction is most
+            // likely to confuse it with), the other half is drawn at random
+            if cands.len() > cfg.max_subst_per_slot {
+                let rec_of = |id: &str| -> Option<&serde_json::Map<String, Value>> { section_of(proj, id).and_then(|sec| proj[sec][id].as_object()) };
+                let mut keep: Vec<String> = vec![];
+                if let Some(me) = rec_of(&cur) {
+                    let mut scored: Vec<(usize, String)> = cands
+                        .iter()
+                        .map(|c| (rec_of(c).map(|o| o.iter().filter(|(k, v)| me.get(*k) == Some(*v)).count()).unwrap_or(0), c.clone()))
+                        .collect();
+                    scored.sort_by(|a, b| b.0.cmp(&a.0).then(a.1.cmp(&b.1)));
+                    keep = scored.into_iter().take(cfg.max_subst_per_slot / 2).map(|x| x.1).collect();
+                }
+                cands.retain(|c| !keep.contains(c));
+                while cands.len() + keep.len() > cfg.max_subst_per_slot && !cands.is_empty() {
+                    let k = rng.gen_range(0..cands.len());
+                    cands.swap_remove(k);
+                }
+                cands.extend(keep);
             }
             for cand in cands {
                 if let Some(k) = key_of(w, &cand) {
